@@ -721,6 +721,37 @@ func ruleMeta(id string) func(*Checker) {
 		c.check(only(src["OriginalModTime"], "ModTime"), id, cname, "OriginalModTime source", cpos, "from header.ModTime", fmt.Sprintf("OriginalModTime does not come (only) from header.ModTime: %v", keys(src["OriginalModTime"])))
 		c.check(only(src["OriginalAccessTime"], "AccessTime"), id, cname, "OriginalAccessTime source", cpos, "from header.AccessTime", fmt.Sprintf("OriginalAccessTime does not come (only) from header.AccessTime: %v", keys(src["OriginalAccessTime"])))
 		c.check(only(src["Typeflag"], "Typeflag"), id, cname, "Typeflag source", cpos, "from header.Typeflag", fmt.Sprintf("Typeflag does not come (only) from header.Typeflag: %v", keys(src["Typeflag"])))
+		// exactness: the recorded values are the header's values themselves — no arithmetic, defaulting or merging on the way
+		eachInstr(u.Ctor, func(in ssa.Instruction) {
+			st, ok := in.(*ssa.Store)
+			if !ok {
+				return
+			}
+			fa, ok := st.Addr.(*ssa.FieldAddr)
+			if !ok {
+				return
+			}
+			f := fieldOf(fa)
+			if f == nil || f.Pkg() == nil || !strings.HasSuffix(f.Pkg().Path(), "/unpackinfo") {
+				return
+			}
+			switch f.Name() {
+			case "OriginalMode", "OriginalModTime", "OriginalAccessTime", "Typeflag":
+			default:
+				return
+			}
+			v := canon(st.Val)
+			exact := false
+			switch x := v.(type) {
+			case *ssa.Call:
+				exact = x.Call.IsInvoke() && x.Call.Method.Name() == "Mode"
+			case *ssa.UnOp:
+				if fa2, ok := x.X.(*ssa.FieldAddr); ok && x.Op == token.MUL && isHeaderType(fa2.X.Type()) {
+					exact = true
+				}
+			}
+			c.check(exact, id, cname, f.Name()+" recorded verbatim", p.Pos(st.Pos()), "the header's value is stored as it is", "the value recorded for "+f.Name()+" is computed (defaulted, masked or merged) instead of taken verbatim from the header: some mode/time does not survive the round trip (e.g. a genuine mode 0000)")
+		})
 
 		fieldsIn := func(v ssa.Value) map[string]bool {
 			out := map[string]bool{}
@@ -759,6 +790,9 @@ func ruleMeta(id string) func(*Checker) {
 				}
 				f := fieldsIn(args[1])
 				c.check(only(f, "OriginalMode"), id, fn, "Chmod mode", pos, "mode comes from OriginalMode", fmt.Sprintf("chmod mode does not come from the recorded mode: %v", keys(f)))
+				_, isBin := canon(args[1]).(*ssa.BinOp)
+				_, isPhi := canon(args[1]).(*ssa.Phi)
+				c.check(!isBin && !isPhi, id, fn, "Chmod mode verbatim", pos, "the recorded mode is applied as it is", "the mode applied is computed from the recorded one (masked / or-ed / defaulted)")
 			case "os.Chtimes":
 				fa, fm := fieldsIn(args[1]), fieldsIn(args[2])
 				c.check(only(fa, "OriginalAccessTime"), id, fn, "Chtimes atime", pos, "atime from OriginalAccessTime", fmt.Sprintf("access-time argument comes from %v", keys(fa)))
